@@ -59,7 +59,7 @@ type vfCmd struct {
 	Pct        int       `json:"pct,omitempty"`
 	Allow      []string  `json:"allow,omitempty"`
 	Msg        string    `json:"msg,omitempty"`
-	MaxPauseMs int       `json:"max_pause_ms,omitempty"`
+	MaxPauseMs int       `json:"max_pause_ms,omitempty"` // 0 = the CLI default (30 s), -1 = an explicit --max-pause 0
 	DrainMs    int       `json:"drain_ms,omitempty"`
 	DeployMs   int       `json:"deploy_ms,omitempty"`
 	Fault      string    `json:"fault,omitempty"` // deliberate error class, "" if the generator expects success
@@ -221,6 +221,9 @@ func vfExec(w *vfWorld, r *Router, c vfCmd) vfCmdResult {
 		case "remove":
 			return r.RemoveService(c.Svc)
 		case "pause":
+			if c.MaxPauseMs < 0 {
+				return r.PauseService(c.Svc, vfDur(c.DrainMs, 1000), 0)
+			}
 			return r.PauseService(c.Svc, vfDur(c.DrainMs, 1000), vfDur(c.MaxPauseMs, 30000))
 		case "stop":
 			return r.StopService(c.Svc, vfDur(c.DrainMs, 1000), c.Msg)
@@ -375,8 +378,11 @@ func (m *vfModel) apply(c vfCmd) []string {
 			return []string{"not-found"}
 		}
 		s.State, s.Msg, s.MaxPauseMs = "paused", "", c.MaxPauseMs
-		if s.MaxPauseMs <= 0 {
+		if s.MaxPauseMs == 0 {
 			s.MaxPauseMs = 30000
+		}
+		if s.MaxPauseMs < 0 {
+			s.MaxPauseMs = 0 // requests are not held at all: 504 at once
 		}
 		return []string{"ok"}
 	case "stop":
@@ -561,6 +567,9 @@ func (m *vfModel) expect(rq vfReqSpec, inRollout func(s *vfMSvc, cookie string) 
 		return e
 	case "paused":
 		e.Kind = "held"
+		if s.MaxPauseMs == 0 {
+			e.Kind = "status-504"
+		}
 		return e
 	}
 	e.Kind = "forward"
